@@ -146,7 +146,9 @@ fn unrolled_text(p: &Prog) -> Option<String> {
 // ---------------------------------------------------------------- the data-driven source text
 fn itext(e: &IEx) -> String {
     match e { IEx::Num(x) => fnum(*x), IEx::Var(n) => n.clone(), IEx::Bin(op, a, c) => format!("({} {} {})", itext(a), op, itext(c)), IEx::At(a, i) => format!("{}[{}]", itext(a), itext(i)), IEx::Len(a) => format!("len({})", itext(a)),
-        IEx::Range(a, c, incl) => format!("{}{}{}", itext(a), if *incl { "..=" } else { ".." }, itext(c)), IEx::Enumerate(a) => format!("enumerate({})", itext(a)), IEx::Nodes(g) => format!("nodes({})", itext(g)), IEx::Edges(g) => format!("edges({})", itext(g)), IEx::NeighEdges(x) => format!("neigh_edges({})", itext(x)), IEx::SetFn(k, a, c) => format!("{}({}, {})", ["union", "intersection", "difference"][*k as usize], itext(a), itext(c)) }
+        IEx::Range(a, c, incl) => format!("{}{}{}", itext(a), if *incl { "..=" } else { ".." }, itext(c)), IEx::Enumerate(a) => format!("enumerate({})", itext(a)), IEx::Nodes(g) => format!("nodes({})", itext(g)), IEx::Edges(g) => format!("edges({})", itext(g)), IEx::NeighEdges(x) => format!("neigh_edges({})", itext(x)), IEx::SetFn(k, a, c) => { // a range literal is not an argument in the grammar: inside a call it is written with the `range` function
+            let arg = |x: &IEx| match x { IEx::Range(lo, hi, incl) => format!("range({}, {}, {})", itext(lo), itext(hi), incl), other => itext(other) };
+            format!("{}({}, {})", ["union", "intersection", "difference"][*k as usize], arg(a), arg(c)) } }
 }
 fn ptext(p: &Pat) -> String { match p { Pat::Single(n) => n.clone(), Pat::Tuple(ns) => format!("({})", ns.join(", ")) } }
 fn btext(binds: &[(Pat, IEx)]) -> String { binds.iter().map(|(p, it)| format!("{} in {}", ptext(p), itext(it))).collect::<Vec<_>>().join(", ") }
@@ -234,7 +236,12 @@ fn gen_prog(r: &mut Rng) -> Prog {
     ];
     let scoped = |r: &mut Rng| -> PExp {
         let kind_num = *r.pick(&[AK::Sum, AK::Sum, AK::Sum, AK::Max, AK::Min, AK::Avg]);
-        match r.below(19) {
+        match r.below(21) {
+            // set functions over operands of different numeric kinds: a range (whole numbers made by the range) against an array of literals
+            19 => { let k = r.below(3) as u8; let rg = range(num(0.0), ib('+', len(v("A")), num(3.0)), false);
+                    let (x, y) = if r.chance(1, 2) { (rg, v("A")) } else { (v("C"), rg) };
+                    PExp::Scoped(AK::Sum, vec![(one("i"), IEx::SetFn(k, Box::new(x), Box::new(y)))], Box::new(pb("*", PExp::Val(ib('+', v("i"), num(1.0))), PExp::Dec("t".into())))) }
+            20 => pb("*", PExp::Val(len(IEx::SetFn(r.below(3) as u8, Box::new(range(num(1.0), num(6.0), true)), Box::new(v("A"))))), PExp::Dec("t".into())),
             // set functions as iteration sources (values used as coefficients), and their length
             15 => { let k = r.below(3) as u8; PExp::Scoped(AK::Sum, vec![(one("i"), IEx::SetFn(k, Box::new(v("A")), Box::new(v("C"))))], Box::new(pb("*", PExp::Val(ib('+', v("i"), num(1.0))), PExp::Dec("t".into())))) }
             16 => pb("*", PExp::Val(len(IEx::SetFn(r.below(3) as u8, Box::new(v("C")), Box::new(v("A"))))), PExp::Dec("t".into())),
